@@ -395,7 +395,7 @@ Proof.
   split.
   { rewrite string_of_generated; [|left; reflexivity|exact Hlw|discriminate]. exact HP. }
   split; [reflexivity|]. split; [reflexivity|].
-  unfold parse_otpauth_url. cbn [u_scheme u_host u_path u_rawquery].
+  unfold parse_otpauth_url, strip_slash. cbn [u_scheme u_host u_path u_rawquery].
   replace (beq (s2b "otpauth") (s2b "otpauth")) with true by reflexivity.
   replace (to_lower (s2b "totp")) with (s2b "totp") by reflexivity.
   replace (beq (s2b "totp") (s2b "totp")) with true by reflexivity. cbn [negb andb].
@@ -444,7 +444,7 @@ Proof.
   split.
   { rewrite string_of_generated; [|right; reflexivity|exact Hlw|discriminate]. exact HP. }
   split; [reflexivity|]. split; [reflexivity|].
-  unfold parse_otpauth_url. cbn [u_scheme u_host u_path u_rawquery].
+  unfold parse_otpauth_url, strip_slash. cbn [u_scheme u_host u_path u_rawquery].
   replace (beq (s2b "otpauth") (s2b "otpauth")) with true by reflexivity.
   replace (to_lower (s2b "hotp")) with (s2b "hotp") by reflexivity.
   replace (beq (s2b "hotp") (s2b "totp")) with false by reflexivity.
@@ -475,7 +475,7 @@ Theorem parse_numbers_exact u p :
   (query_get (s2b "period") q = [] /\ up_period p = 30 \/
    exists z, atoi (query_get (s2b "period") q) = Some z /\ (0 <= z)%Z /\ Z.of_N (up_period p) = z).
 Proof.
-  unfold parse_otpauth_url. intros H.
+  unfold parse_otpauth_url, strip_slash. intros H.
   destruct (negb (beq (u_scheme u) (s2b "otpauth"))); [discriminate|].
   destruct (negb (beq (to_lower (u_host u)) (s2b "totp")) && negb (beq (to_lower (u_host u)) (s2b "hotp")));
     [destruct (all_ascii (u_host u)); discriminate|].
